@@ -728,7 +728,10 @@ def _fam_scale(S, case, labels):
     # a column whose classification against eps changes also changes the (mean-residual) stopping time of all the others
     # columns with 0 < ||b|| < eps are iterated un-normalised (rhs_norm := 1): their residual is compared with
     # stop_updating_after on the caller's scale, so the 'solved right away' exit legitimately depends on alpha
-    sub_eps = bool((S.iszero & (S.beta > 0)).any())
+    # (the same holds for a zero column started from a non-zero initial guess: its residual -A x0 is on the caller's scale,
+    # and the eps = 1e-10 safeguards in the step-length denominators damp the step once alpha^2 |r|^2 approaches eps)
+    x0nz = torch.zeros_like(S.iszero) if S.x0_lib is None else (S.full(S.x0_lib.double()).abs().amax(dim=-2) > 0)
+    sub_eps = bool((S.iszero & ((S.beta > 0) | x0nz)).any())
     exact = m == 0.5 and inrange and x0ok and bool((b2.double() == S.b_lib.double() * alpha).all()) and bool(stable.all()) and not sub_eps
     labels.append("alpha:%s" % ("pow2" if exact else "general"))
     if not bool(stable.all()):
